@@ -84,7 +84,7 @@ def run(ctx: Ctx) -> None:
         for indent, spacer, quote, ec, al, sep in itertools.product(range(0, 9), (" ", "\t"), ('"', "'"), (False, True), (False, True), (False, True)):
             settings[f"indent={indent} spacer={spacer!r} quote={quote} end_comment={ec} align_values={al} separate_complex_types={sep}"] = dict(indent=indent, spacer=spacer, quote=quote, end_comment=ec, align_values=al, separate_complex_types=sep)
         ctx.units["option_sets"] = len(settings)
-    locf = repo.loc("pprint", repo.func("pprint.PrettyPrinter._format"))
+    locf = repo.loc("pprint", repo.func(models.fmt_qual(repo)))
     for rname, mk in reps.items():
         bases = {}
         for sepflag in (False, True):
